@@ -73,8 +73,10 @@ def gen_shared_head(rng):
 def gen_case(rng, idx):
     mode = idx % 6
     if mode in (0, 1):
-        prog = ajlib.gen_program(rng)
-        outs = [t for t in range(prog.n()) if prog.req[t] and not prog.is_leaf[t]]
+        outs = []
+        while not outs:
+            prog = ajlib.gen_program(rng)
+            outs = [t for t in range(prog.n()) if prog.req[t] and not prog.is_leaf[t]]
         rng.shuffle(outs)
         outs = outs[:rng.randint(1, 3)]
         while sum(numel(prog.shapes[o]) for o in outs) > 16 and len(outs) > 1:
@@ -104,6 +106,14 @@ def gen_case(rng, idx):
                 "retain": spec["retain"]}
         case["sets"] = [(spec["features"], [])] + [([l], spec["features"]) for l in spec["losses"]]
     case["calls"] = [ajcheck.prepare_call(prog, call)]
+    if kind == "mtl":
+        # second variant: only tasks_params defaulted; shared_params given explicitly as the trunk
+        # leaves that no head reaches around the features (so the sets cannot overlap)
+        c0 = case["calls"][0]
+        around = {q for ps in c0["eff_tasks"] for q in ps}
+        sh = [x for x in c0["eff_shared"] if x not in around]
+        call2 = dict(call, shared=sh, retain=True)
+        case["calls"].append(ajcheck.prepare_call(prog, call2))
     return case
 
 
@@ -116,7 +126,7 @@ def model_leafsets(cases):
         name = f"G{case['id']}"
         src += ajlib.c_prog(name, prog, graph, {})
         items = "; ".join(
-            f"match get_leaf_tensors {name} {ajlib.c_natlist(a)} {ajlib.c_natlist(b)} with Ok l => (0%nat, l) | Err e => (err_code e, []) end"
+            f"match get_leaf_tensors {name} E{name} {ajlib.c_natlist(a)} {ajlib.c_natlist(b)} with Ok l => (0%nat, l) | Err e => (err_code e, []) end"
             for a, b in case["sets"])
         src += f"Eval vm_compute in [{items}].\n"
     return src
@@ -175,13 +185,32 @@ def run(chk):
                     f"(code {code}), the op DAG says {want}; theorems of props/C12.v no longer describe the code",
                     {"kind": "c12-walk", "case": case}, no_input=True)
         # (2) overlap -> rejection; else defaulted == explicit on twins
-        overlap = False
-        if call["entry"] == "mtl":
-            tp = {q for ps in call["eff_tasks"] for q in ps}
-            overlap = bool(tp & set(call["eff_shared"]))
+        ok_calls = True
+        for ci, call in enumerate(case["calls"]):
+            if not judge_call(chk, case, call, models[case["id"]][ci], dist):
+                ok_calls = False
+        if ok_calls and not any(_overlap(c) for c in case["calls"]):
+            # (3) the model of the defaulted calls agrees with the exact oracle
+            ajcheck.check_case(chk, "C12", case, models.get(case["id"]), dtypes=((torch.float64, 0.0),))
+        if len(chk.violations) >= 3:
+            break
+    chk.cov["input_distribution"] = dist
+    chk.assumptions += ["grad_fn / next_functions / AccumulateGrad.variable expose the graph the engine "
+                        "differentiates (PyTorch contract)"]
+
+
+def _overlap(call):
+    if call["entry"] != "mtl":
+        return False
+    tp = {q for ps in call["eff_tasks"] for q in ps}
+    return bool(tp & set(call["eff_shared"]))
+
+
+def judge_call(chk, case, call, mr, dist):
+    if True:
+        overlap = _overlap(call)
         (e1, g1), (e2, g2) = twin(chk, case, call)
-        mr = models[case["id"]][0]
-        rep = {"kind": "c12", "case": case}
+        rep = {"kind": "c12", "case": case, "call_index": case["calls"].index(call)}
         if overlap:
             dist["overlap_rejected"] += 1
             old = {t: (None if case["old"].get(str(t)) is None else [float(x) for x in case["old"][str(t)]]) for t in g1}
@@ -192,28 +221,23 @@ def run(chk):
                               f"{'' if unchanged else ' after modifying .grad'}", rep)
             if mr["code"] != 1:
                 chk.violation("correspondence: model does not reject overlapping defaults", rep, no_input=True)
-            continue
+                return False
+            return e1 == "ValueError" and unchanged
         if e1 is not None or e2 is not None:
             chk.violation(f"C12 defaulted call raised {e1}, explicit call on the discovered leaves raised {e2}", rep)
-            continue
+            return False
         if g1 != g2:
             bad = [t for t in g1 if g1[t] != g2[t]]
             chk.violation(
                 f"C12 the defaulted call and the explicit call with the leaves the tensors were computed "
                 f"from differ on leaves {bad}: {[g1[t] for t in bad]} vs {[g2[t] for t in bad]}", rep)
-            continue
-        # (3) the model of the defaulted call agrees with the exact oracle
-        ajcheck.check_case(chk, "C12", case, models.get(case["id"]), dtypes=((torch.float64, 0.0),))
-        if len(chk.violations) >= 3:
-            break
-    chk.cov["input_distribution"] = dist
-    chk.assumptions += ["grad_fn / next_functions / AccumulateGrad.variable expose the graph the engine "
-                        "differentiates (PyTorch contract)"]
+            return False
+        return True
 
 
 def replay(chk, obj):
     case = obj["case"]
-    call = case["calls"][0]
+    call = case["calls"][obj.get("call_index", 0)]
     (e1, g1), (e2, g2) = twin(chk, case, call)
     print("defaulted:", e1, g1)
     print("explicit :", e2, g2)
